@@ -10,7 +10,7 @@ import Ecpint.Props.C08
 import Ecpint.Props.C09All
 import Ecpint.Props.C10
 import Ecpint.Props.C11
-import Ecpint.Props.C12
+import Ecpint.Props.C12All
 import Ecpint.Props.C13
 import Ecpint.Props.C14All
 import Ecpint.Props.C15All
